@@ -175,7 +175,11 @@ AuthBehaviour(auth) ==
       [] auth = "auth:ref2"  -> "ref2"
       [] auth = "auth:ref3"  -> "ref3"
       [] auth = "auth:raise" -> "raise"
+      \* the client sent no auth payload at all and the handler refuses all the same
+      [] auth = "absent:ref2"  -> "ref2"
+      [] auth = "absent:false" -> "false"
       [] OTHER               -> "ok"
+IsAbsent(auth) == auth \in {"absent", "absent:ref2", "absent:false"}
 
 (* exceptions.py ConnectionRefusedError.error_args rendered as sorted      *)
 (* key=value tokens                                                        *)
@@ -262,7 +266,7 @@ RxConnect(m, t, ns, auth) ==
         \* `if data:` - an absent payload reaches a three-argument handler as None
         m3  == IF ns \in NsH
                THEN AddCall(m2, HCallP(ns, "connect", sid,
-                               <<"env:" \o t, IF auth = "absent" THEN "None" ELSE auth>>, SentTo(m2, t)))
+                               <<"env:" \o t, IF IsAbsent(auth) THEN "None" ELSE auth>>, SentTo(m2, t)))
                ELSE m2
     IN
     IF b = "raise" THEN Raise(m3, "Boom")
@@ -710,7 +714,7 @@ C04_ConnectOutcome ==
             sid  == SidName(gh.n)                       \* fresh: never handed out before
             P    == Get(o.pk, a.t, <<>>)
             b    == IF a.ns \in NsH THEN AuthBehaviour(a.auth) ELSE "ok"
-            seen == IF a.auth = "absent" THEN "None" ELSE a.auth
+            seen == IF IsAbsent(a.auth) THEN "None" ELSE a.auth
         IN  /\ DOMAIN o.pk \subseteq {a.t}              \* nobody else hears about it
             /\ IF ~Served(a.ns) \/ dupG
                THEN /\ o.hc = <<>>                      \* refused without running a handler
